@@ -29,6 +29,16 @@ fuzz_target!(|data: &[u8]| {
             if let Err(p) = r {
                 let sig = format!("panic:{}", p.signature().trim_start_matches("panic:"));
                 if f.matches("C03", &sig).is_none() && f.matches("C03", &p.signature()).is_none() {
+                    // hunting mode (VERIF_FUZZ_COLLECT=<dir>): record one input per new signature and go on
+                    if let Ok(dir) = std::env::var("VERIF_FUZZ_COLLECT") {
+                        let name: String = p.signature().chars().map(|c| if c.is_ascii_alphanumeric() { c } else { '_' }).take(80).collect();
+                        let path = format!("{}/{}", dir, name);
+                        if !std::path::Path::new(&path).exists() {
+                            let _ = std::fs::write(&path, data);
+                            let _ = std::fs::write(format!("{}.txt", path), format!("{}:{} {}", p.file, p.line, p.msg));
+                        }
+                        continue;
+                    }
                     eprintln!("FUZZ-VIOLATION property=C03 signature={}\n{}:{} {}", sig, p.file, p.line, p.msg);
                     std::process::abort();
                 }
